@@ -67,23 +67,41 @@ Opened(in, c, upto) ==
 
 \* what the contract demands at or before `upto` when nothing has been reported since c:
 \*   [pos, k = "disc", n] | [pos, k = "ok", m] | [pos |-> 0] (nothing)
-Demand(in, c0, cap, upto) ==
+\* mode "strict": everything; "c17": only the report for the noise before the first start sequence after an idle boundary
+\* (no gaps, C17); "c08": that report only when a valid frame of a fitting payload begins at that start sequence, and the
+\* delivery of a valid frame that begins at the boundary (C08 / C01 / C14)
+Demand(in, c0, cap, upto, mode) ==
   LET c == Opened(in, c0, upto) IN
   IF c.open
-  THEN LET p == FirstFrameEnd(in, c.b, cap, upto) IN
-       IF p = 0 THEN [pos |-> 0] ELSE [pos |-> p, k |-> "ok", m |-> FrameAt(in, c.b, p).m]
+  THEN IF mode = "c17" THEN [pos |-> 0]
+       ELSE LET p == FirstFrameEnd(in, c.b, cap, upto) IN
+            IF p = 0 THEN [pos |-> 0] ELSE [pos |-> p, k |-> "ok", m |-> FrameAt(in, c.b, p).m]
   ELSE LET q == FirstStartEnd(in, c.b, upto) IN
-       IF q = 0 THEN [pos |-> 0] ELSE [pos |-> q, k |-> "disc", n |-> q - 8 - c.b]
+       IF q = 0 \/ (mode = "c08" /\ FirstFrameEnd(in, q - 8, cap, Len(in)) = 0) THEN [pos |-> 0]
+       ELSE [pos |-> q, k |-> "disc", n |-> q - 8 - c.b]
 
 CrcField(in, pos) == in[pos - 1] + 256 * in[pos]
 
 \* is event <<pos, o>> allowed in contract state c (already `Opened`), and the state after it.
-\* strict = FALSE keeps only what the listed properties state about error reports (they end a transmission and take
-\* part in the tiling); strict = TRUE adds which bytes each error report refers to and what its fields mean.
-After(in, c, cap, pos, o, strict) ==
+\* mode "strict": everything, incl. which bytes each error report refers to and what its fields mean (used for the
+\*   refinement check of the decoder specification);
+\* mode "c17": exactly the tiling rules of C17 (ranges and counts, the start sequence that triggered a count);
+\* mode "c08": nothing is checked here - the reports only move the boundary (the demands are checked in CFold).
+After(in, c, cap, pos, o, mode) ==
   LET bad == [c EXCEPT !.ok = FALSE] IN
-  CASE ~strict /\ o.k \in {"oom", "invmsg", "invesc"} ->
+  CASE mode = "c08" ->
+         IF o.k = "disc" THEN [b |-> c.b + o.n, open |-> TRUE, ok |-> c.ok] ELSE [b |-> pos, open |-> FALSE, ok |-> c.ok]
+    [] mode = "c17" /\ o.k = "ok" ->
+         IF pos - FrameLen(o.m) = c.b THEN [b |-> pos, open |-> FALSE, ok |-> c.ok] ELSE bad
+    [] mode = "c17" /\ o.k = "disc" ->
+         IF pos = c.b + o.n + 8 /\ pos <= Len(in) /\ SubSeq(in, pos - 7, pos) = StartSeq
+         THEN [b |-> c.b + o.n, open |-> TRUE, ok |-> c.ok] ELSE bad
+    [] mode = "c17" /\ o.k \in {"oom", "invmsg", "invesc"} ->
          IF pos > c.b THEN [b |-> pos, open |-> FALSE, ok |-> c.ok] ELSE bad
+    [] mode = "c17" /\ o.k = "fin" ->
+         IF o.n = pos - c.b /\ (~o.some => o.n = 0) THEN [b |-> pos, open |-> FALSE, ok |-> c.ok] ELSE bad
+    [] mode = "c17" /\ o.k = "rst" ->
+         IF o.n = pos - c.b THEN [b |-> pos, open |-> FALSE, ok |-> c.ok] ELSE bad
     [] o.k = "ok" ->
          IF /\ c.open /\ Len(o.m) <= cap /\ pos - c.b = FrameLen(o.m)
             /\ SubSeq(in, c.b + 1, pos) = Canonical(o.m)
@@ -120,23 +138,23 @@ After(in, c, cap, pos, o, strict) ==
 
 \* fold the reports of one step (in = the stream after the step)
 RECURSIVE CFold(_, _, _, _, _, _)
-CFold(in, evs, k, c0, cap, strict) ==
+CFold(in, evs, k, c0, cap, mode) ==
   IF k > Len(evs)
-  THEN LET d == Demand(in, c0, cap, Len(in)) IN
+  THEN LET d == Demand(in, c0, cap, Len(in), mode) IN
        IF d.pos # 0 THEN [c0 EXCEPT !.ok = FALSE]          \* a demanded report is missing
        ELSE Opened(in, c0, Len(in))
   ELSE LET pos == evs[k][1]
            o   == evs[k][2]
-           d   == Demand(in, c0, cap, pos)
+           d   == Demand(in, c0, cap, pos, mode)
            c   == Opened(in, c0, pos)
        IN IF d.pos # 0 /\ (d.pos < pos \/ o.k # d.k
                            \/ (d.k = "ok" /\ o.m # d.m) \/ (d.k = "disc" /\ o.n # d.n))
           THEN [c0 EXCEPT !.ok = FALSE]                    \* a demanded report is missing or different
-          ELSE LET c1 == After(in, c, cap, pos, o, strict) IN
-               IF ~c1.ok THEN c1 ELSE CFold(in, evs, k + 1, c1, cap, strict)
+          ELSE LET c1 == After(in, c, cap, pos, o, mode) IN
+               IF ~c1.ok THEN c1 ELSE CFold(in, evs, k + 1, c1, cap, mode)
 
-ContractStepS(in, evs, c, cap, strict) == IF ~c.ok THEN c ELSE CFold(in, evs, 1, c, cap, strict)
-ContractStep(in, evs, c, cap) == ContractStepS(in, evs, c, cap, TRUE)
+ContractStepS(in, evs, c, cap, mode) == IF ~c.ok THEN c ELSE CFold(in, evs, 1, c, cap, mode)
+ContractStep(in, evs, c, cap) == ContractStepS(in, evs, c, cap, "strict")
 
 ASSUME Unescape(Escape(<<27, 27, 27, 27, 27, 1, 27, 27, 27, 27, 27, 27, 27, 27>>), 1) = <<27, 27, 27, 27, 27, 1, 27, 27, 27, 27, 27, 27, 27, 27>>
 ASSUME FrameAt(Canonical(<<18, 52, 86, 120>>), 0, 20) = [is |-> TRUE, m |-> <<18, 52, 86, 120>>]
